@@ -184,6 +184,11 @@ opened("C08-variable-reference-repetition", "C08",
        "the generated lexer's variable-reference token is a repetition of names, so '$a:bb:c' is read as (a:b)(b:c) and "
        "accepted although it is not an expression; evaluation then uses 'a' and 'bb' and ignores the rest",
        expect("<r/>", "$a:bb:c", {"t": "reject"}))
+opened("C08-keyword-lookalike-names", "C08",
+       "the generated lexer reads a name that differs from a hyphenated keyword only at the hyphen positions as that "
+       "keyword: 'following0sibling::a' is accepted (and evaluated as the self axis) although it names no axis, and the "
+       "function call 'processing0instruction(0)' is rejected as a malformed node test",
+       expect("<r><a/><a/></r>", "/r/a/following1sibling::a", {"t": "reject"}))
 opened("C08-number-split-by-white-space", "C08",
        "'1 . 5' is not an expression but BuildExpr accepts it (Number is a syntax rule over tokens, so white space may split it); Exec then fails with a strconv error",
        expect("<r/>", "1 . 5", {"t": "reject"}))
